@@ -22,7 +22,7 @@ ASSUMPTIONS = [
 BOUNDS = {"quick": "abc explicit/generated, at explicit, conn1s/abc a3, conn2/abc generated/explicit/root (str + variable leaves), closure/ab, all 1..2-rule configurators",
           "thorough": "quick + abt, abct, diamonds, conn2s/abc, conn2/abcd, 3-rule configurators"}
 QUICK = ["abc/explicit", "abc/generated", "at/explicit", "conn1s/abc/generated/a3", "conn1/abcd/explicit/a3", "conn2/abc/generated", "conn2/abc/explicit",
-         "conn2/abc/root", "closure/ab/generated", "mix3/abtn/explicit", "atmostneg/generated", "atmostneg/explicit", "ab/varnamed", "empty/ab", "wide/1"]
+         "conn2/abc/root", "closure/ab/generated", "mix3/abtn/explicit", "atmostneg/generated", "atmostneg/explicit", "ab/varnamed", "empty/ab", "wide/1", "alt/mix3+abt+explicit", "altg/mix3+abtu+generated"]
 THOROUGH = QUICK + ["abt/explicit", "abct/explicit", "diamond/explicit", "diamond/generated", "conn2s/abc/generated", "conn2/abcd/generated", "abt/generated"]
 
 
